@@ -57,3 +57,51 @@ package tmi
 //@   ensures gossip-copy: s.GossipViewManager.NextRound.VRV.Version == s.NextRound.Version &&
 //@       s.GossipViewManager.NextRound.VRV.Height == s.NextRound.Height && s.GossipViewManager.NextRound.VRV.Round == s.NextRound.Round
 //@   modifies s.NextRound.Version, s.GossipViewManager.NextRound.VRV
+
+//@ func kState.MarkViewUpdated
+//@   property C11 C09
+//@   requires id == ViewIDCommitting || id == ViewIDVoting || id == ViewIDNextRound
+//@   requires s.Voting.Version < MAXU32 && s.Committing.Version < MAXU32 && s.NextRound.Version < MAXU32
+//@   ensures id == ViewIDVoting ==> s.Voting.Version == old(s.Voting.Version) + 1
+//@   ensures id == ViewIDCommitting ==> s.Committing.Version == old(s.Committing.Version) + 1
+//@   ensures id == ViewIDNextRound ==> s.NextRound.Version == old(s.NextRound.Version) + 1
+//@   modifies s.Voting.Version, s.Committing.Version, s.NextRound.Version, s.GossipViewManager.Voting.VRV, s.GossipViewManager.Committing.VRV,
+//@       s.GossipViewManager.NextRound.VRV, s.StateMachineViewManager.outgoingView, s.StateMachineViewManager.jumpAhead
+
+// ---- position changes (C04): voting height is committing height + 1, rounds move forward ----
+
+//@ func kState.incrementVotingRound
+//@   property C04 C11
+//@   requires s.NextRound.Height == s.Voting.Height && s.NextRound.Round == s.Voting.Round + 1
+//@   requires s.Voting.Round < MAXU32 - 1 && s.NextRound.Version < MAXU32 && s.Voting.Version < MAXU32
+//@   ensures height-kept: s.Voting.Height == old(s.Voting.Height) && s.NextRound.Height == old(s.Voting.Height)
+//@   ensures round-plus-one: s.Voting.Round == old(s.Voting.Round) + 1 && s.NextRound.Round == s.Voting.Round + 1
+//@   ensures committing-kept: s.Committing.Height == old(s.Committing.Height) && s.Committing.Round == old(s.Committing.Round)
+//@   ensures valset-kept: s.Voting.ValidatorSet == old(s.NextRound.ValidatorSet) && s.NextRound.ValidatorSet == old(s.Voting.ValidatorSet)
+//@   ensures version-bump: s.Voting.Version == old(s.NextRound.Version) + 1 && s.NextRound.Version == 1
+//@   modifies s.Voting, s.NextRound, s.GossipViewManager.Voting.VRV, s.GossipViewManager.NextRound.VRV, s.StateMachineViewManager.outgoingView,
+//@       old(s.Voting.PrevoteProofs)[*], old(s.Voting.PrecommitProofs)[*], old(s.Voting.PrevoteBlockVersions)[*], old(s.Voting.PrecommitBlockVersions)[*],
+//@       old(s.Voting.VoteSummary.PrevoteBlockPower)[*], old(s.Voting.VoteSummary.PrecommitBlockPower)[*], old(s.Voting.ProposedHeaders)[*]
+
+//@ func kState.AdvanceVotingRound
+//@   property C04 C11
+//@   requires s.NextRound.Height == s.Voting.Height && s.NextRound.Round == s.Voting.Round + 1
+//@   requires s.Voting.Round < MAXU32 - 1 && s.NextRound.Version < MAXU32 && s.Voting.Version < MAXU32
+//@   ensures height-kept: s.Voting.Height == old(s.Voting.Height) && s.NextRound.Height == old(s.Voting.Height)
+//@   ensures round-plus-one: s.Voting.Round == old(s.Voting.Round) + 1 && s.NextRound.Round == s.Voting.Round + 1
+//@   ensures committing-kept: s.Committing.Height == old(s.Committing.Height) && s.Committing.Round == old(s.Committing.Round)
+//@   ensures nil-voted-round-retained: s.GossipViewManager.NilVotedRound != nil &&
+//@       s.GossipViewManager.NilVotedRound.Height == old(s.Voting.Height) && s.GossipViewManager.NilVotedRound.Round == old(s.Voting.Round) &&
+//@       s.GossipViewManager.NilVotedRound.Version == old(s.Voting.Version)
+//@   modifies heap
+
+//@ func kState.JumpVotingRound
+//@   property C04 C11
+//@   requires s.NextRound.Height == s.Voting.Height && s.NextRound.Round == s.Voting.Round + 1
+//@   requires s.Voting.Round < MAXU32 - 1 && s.NextRound.Version < MAXU32 && s.Voting.Version < MAXU32
+//@   ensures height-kept: s.Voting.Height == old(s.Voting.Height) && s.NextRound.Height == old(s.Voting.Height)
+//@   ensures round-plus-one: s.Voting.Round == old(s.Voting.Round) + 1 && s.NextRound.Round == s.Voting.Round + 1
+//@   ensures committing-kept: s.Committing.Height == old(s.Committing.Height) && s.Committing.Round == old(s.Committing.Round)
+//@   ensures jump-ahead-delivered: old(s.StateMachineViewManager.roundEntrance.H) == old(s.Voting.Height) && old(s.StateMachineViewManager.roundEntrance.R) == old(s.Voting.Round) ==>
+//@       s.StateMachineViewManager.jumpAhead != nil && s.StateMachineViewManager.jumpAhead.Height == s.Voting.Height && s.StateMachineViewManager.jumpAhead.Round == s.Voting.Round
+//@   modifies heap
